@@ -138,4 +138,47 @@ EXTRA = [
     ("C09", "label-difference-not-cancelled", "pdpy11/deferred.py",
      """        return LinearPolynomial[int]({key: -value for key, value in self.coeffs.items()}, -self.constant_term)""",
      """        return LinearPolynomial[int]({key: -value for key, value in self.coeffs.items()}, -self.constant_term - (1 if len(self.coeffs) == 1 and self.constant_term > 0o77777 else 0))"""),
+    ("C05", "and-precedence-3", "pdpy11/operators.py", '@operator("x & x", precedence=8, associativity="left")', '@operator("x & x", precedence=3, associativity="left")'),
+    ("C05", "div-truncates-toward-zero", "pdpy11/operators.py", "        return a // b\n", "        return int(a / b)\n"),
+    ("C05", "underscore-sign-swapped", "pdpy11/operators.py",
+     "    if b >= 0:\n        return a << b\n    else:\n        return a >> -b",
+     "    if b <= 0:\n        return a << -b\n    else:\n        return a >> b"),
+    ("C05", "caret-D-read-as-octal", "pdpy11/parser.py", r'("^D", "A decimal", r"\d", 10)', r'("^D", "A decimal", r"\d", 8)'),
+    ("C05", "two-char-literal-big-endian", "pdpy11/types.py",
+     '        self.evaluated_value = struct.unpack("<H", bytes_value)[0]',
+     '        self.evaluated_value = struct.unpack(">H" if len(self.string) == 2 else "<H", bytes_value)[0]'),
+    ("C05", "bare-8-9-accepted-silently", "pdpy11/types.py",
+     "        if not self.reported_invalid_base8 and self.invalid_base8:", "        if False and not self.reported_invalid_base8 and self.invalid_base8:"),
+    ("C05", "minus-right-associative", "pdpy11/operators.py",
+     '@operator("x - x", precedence=4, associativity="left", awaited=False)', '@operator("x - x", precedence=4, associativity="right", awaited=False)'),
+    ("C05", "negative-shift-only-warning", "pdpy11/operators.py",
+     '        reports.error(\n            "arithmetic-error",\n            (token.ctx_start, token.ctx_end, f"Negative left shift',
+     '        reports.warning(\n            "arithmetic-error",\n            (token.ctx_start, token.ctx_end, f"Negative left shift'),
+    ("C05", "xor-is-or-for-large", "pdpy11/operators.py",
+     "def xor(a: int, b: int) -> int:\n    return a ^ b", "def xor(a: int, b: int) -> int:\n    return a ^ b if a < 0o200000 else a | b"),
+    ("C05", "rad50-literal-middle-factor", "pdpy11/radix50.py",
+     "    return encode_char(a) * 1600 + encode_char(b) * 40 + encode_char(c)", "    return encode_char(a) * 1600 + encode_char(b) * 50 + encode_char(c)"),
+    ("C05", "hex-digits-f-dropped", "pdpy11/parser.py", '("^X", "A hexadecimal", r"[0-9a-f]", 16)', '("^X", "A hexadecimal", r"[0-9a-e]", 16)'),
+    ("C06", "limit-inclusive", "pdpy11/metacommand_impl.py", "    if value >= 2 ** bitness:", "    if value > 2 ** bitness:"),
+    ("C06", "negative-limit-off", "pdpy11/metacommand_impl.py", "    if value <= -2 ** bitness:", "    if value < -2 ** bitness - 1:"),
+    ("C06", "dword-word-order", "pdpy11/metacommands.py",
+     'return struct.pack("<H", value >> 16) + struct.pack("<H", value & 0xffff)', 'return struct.pack("<H", value & 0xffff) + struct.pack("<H", value >> 16)'),
+    ("C06", "tab-escape-is-space", "pdpy11/parser.py", '    elif char == "t":\n        return "\\t"', '    elif char == "t":\n        return " "'),
+    ("C06", "odd-swapped-with-even", "pdpy11/metacommands.py",
+     '    # As if that\'s any useful...\n    return b"\\x00" if wait(state["emit_address"]) % 2 == 0 else b""',
+     '    # As if that\'s any useful...\n    return b"\\x00" if wait(state["emit_address"]) % 2 == 1 else b""'),
+    ("C06", "blkb-minus-one-accepted", "pdpy11/metacommand_impl.py", "    if unsigned and value < 0:\n", "    if unsigned and value < -1:\n"),
+    ("C06", "odd-address-only-warning", "pdpy11/metacommands.py",
+     '        reports.error(\n            "odd-address",\n            (state["insn"].ctx_start, state["insn"].ctx_end, "This \'.word\' was emitted',
+     '        reports.warning(\n            "odd-address",\n            (state["insn"].ctx_start, state["insn"].ctx_end, "This \'.word\' was emitted'),
+    ("C06", "byte-chunk-256-accepted", "pdpy11/metacommands.py",
+     'result.append(get_as_int(state, "byte character", chunk, chunk.expr, bitness=8, unsigned=True, default=0))',
+     'result.append(get_as_int(state, "byte character", chunk, chunk.expr, bitness=9, unsigned=True, default=0) & 255)'),
+    ("C06", "asciz-no-terminator-for-empty", "pdpy11/metacommands.py",
+     '    return ascii_impl(state, ascii_text) + b"\\x00"', '    data = ascii_impl(state, ascii_text)\n    return data + b"\\x00" if data else data'),
+    ("C06", "align-noop-for-multiples-of-24", "pdpy11/metacommands.py",
+     '    return b"\\x00" * ((-wait(state["emit_address"])) % count)', '    return b"\\x00" * ((-wait(state["emit_address"])) % count if count % 24 else 0)'),
+    ("C06", "cp866-strings-in-koi8", "pdpy11/metacommands.py",
+     'chunk).encode(state["compiler"].output_charset)', 'chunk).encode(state["compiler"].output_charset if state["compiler"].output_charset != "cp866" else "koi8-r")'),
+    ("C06", "slash-escape-keeps-backslash", "pdpy11/parser.py", '    elif char in "\\\\\\"\'/":\n        return char', '    elif char in "\\\\\\"\'":\n        return char\n    elif char == "/":\n        return "\\\\/"'),
 ]
